@@ -457,11 +457,8 @@ class ExecutionState:
                 # Check if this operation's parent is done. An operation that is first started after the
                 # parent completed is not in _parent_done itself, but its enclosing context is either marked
                 # as orphaned or is the completed context itself.
-                if (
-                    operation_update.operation_id in self._parent_done
-                    or operation_update.parent_id in self._parent_done
-                    or operation_update.parent_id in self._completed_contexts
-                    or self._has_completed_ancestor(operation_update.parent_id)
+                if self._is_orphaned(
+                    operation_update.operation_id, operation_update.parent_id
                 ):
                     logger.debug(
                         "Rejecting checkpoint for operation %s - parent is done",
@@ -545,6 +542,35 @@ class ExecutionState:
             self.stop_checkpointing()
             # Raise the original exception unwrapped
             raise bg_error.source_exception from bg_error
+
+    def _is_orphaned(self, operation_id: str, parent_id: str | None) -> bool:
+        """Check whether an enclosing context of the operation has completed in this invocation.
+
+        Must be called while holding _parent_done_lock.
+        """
+        return (
+            operation_id in self._parent_done
+            or parent_id in self._parent_done
+            or parent_id in self._completed_contexts
+            or self._has_completed_ancestor(parent_id)
+        )
+
+    def ensure_not_orphaned(self, operation_id: str, parent_id: str | None) -> None:
+        """Raise OrphanedChildException if an enclosing context of the operation has completed.
+
+        create_checkpoint() makes this check for every update. An operation that runs user code without
+        sending an update first (a retry attempt of a step found READY or STARTED) has to ask explicitly,
+        otherwise a branch whose parent has completed would still run the function.
+        """
+        with self._parent_done_lock:
+            if self._is_orphaned(operation_id, parent_id):
+                error_msg = (
+                    "Parent context completed, child operation cannot run"
+                )
+                raise OrphanedChildException(
+                    error_msg,
+                    operation_id=operation_id,
+                )
 
     def _has_completed_ancestor(self, context_id: str | None) -> bool:
         """Check whether a context that completed in this invocation encloses the given context.
